@@ -33,6 +33,9 @@ def cart_grids(draw, dims=(1, 2, 3), max_shape=(24, 24, 12), min_shape=1, aniso=
         per = [draw(st.booleans()) for _ in range(dim)]
     else:
         per = [bool(periodic)] * dim
+    if draw(st.integers(0, 9)) == 0 and aniso[0] <= 1 <= aniso[1] and log_spacing[0] <= 0 <= log_spacing[1]:
+        # the unit grid: spacing exactly 1, origin 0 (built with pde.UnitGrid, see oracles.make_cart_grid)
+        spacing, origin = [1.0] * dim, [0.0] * dim
     return {"origin": origin, "shape": shape, "spacing": spacing, "periodic": per}
 
 
@@ -81,3 +84,37 @@ def mask_to_bits(mask: np.ndarray) -> int:
         if v:
             out |= 1 << k
     return out
+
+
+# --- equivalent representations of the same droplet parameters ---------------------------------------------------------------
+def as_given(position, radius, key):
+    """The same position / radius handed over in one of several equivalent, commonly used forms (float array, list, tuple,
+    integer array when all coordinates are integral, numpy scalar / 0-d array radius).  `key` is any JSON-able value; the choice is
+    a pure function of it, so that replay files reproduce the representation."""
+    import hashlib
+    import json
+
+    h = hashlib.sha256(json.dumps(key, sort_keys=True, default=str).encode()).digest()
+    pos = [float(x) for x in position]
+    mode = h[0] % 6
+    if mode == 0:
+        p = np.array(pos, float)
+    elif mode == 1:
+        p = list(pos)
+    elif mode == 2:
+        p = tuple(pos)
+    elif mode == 3 and all(float(x).is_integer() and abs(x) < 2**31 for x in pos):
+        p = np.array(pos, dtype=int)
+    elif mode == 4:
+        p = np.array(pos + pos, float)[::1][: len(pos)].copy(order="F")  # a fresh array with another memory layout flag
+    else:
+        p = np.asarray(pos, dtype=np.float64)[::-1][::-1]  # a non-contiguous view with the same values
+    rmode = h[1] % 4
+    r = float(radius)
+    if rmode == 1:
+        r = np.float64(r)
+    elif rmode == 2:
+        r = np.array(r)
+    elif rmode == 3 and r.is_integer() and abs(r) < 2**31:
+        r = int(r)
+    return p, r
